@@ -92,13 +92,6 @@ def check_mesh(ctx, p, v, e, c, ne, replace_short, label):
         # a closed interface (cell hanging on the tissue by one vertex) cannot be drawn with <= 2 segments
         ctx.skip("loop interface with ne <= 2: statement unsatisfiable")
         return None
-    if ne == 1:
-        pairs = [frozenset((q[0], q[-1])) for q in paths0]
-        if len(set(pairs)) != len(pairs):
-            # two interfaces joining the same two junctions both collapse to the same two-point list (known D22)
-            ctx.exclude_known("D22")
-            ctx.count("excluded:D22-parallel-interfaces-at-ne1")
-            return None
     ends = [x for q in contr for x in q]
     if len(set(ends)) != len(ends):
         ctx.exclude_known("D21")
